@@ -33,6 +33,12 @@ def configs(tier):
                 sh = 'zero' if (meth == 'czt' and q) else 'sym'
                 out.append({'name': 'transpose-%s-%s-%dx%d-%s' % (meth, d, m, n, sh), 'kind': 'transpose', 'method': meth, 'dir': d,
                             'in': [m, n], 'out': [2, 3], 'shift': sh})
+    # the same field stored as a real or as a complex array (linearity over the complex numbers: T(a + i 0) == T(a))
+    for meth in ('mdft', 'czt'):
+        for d in ('fwd', 'inv'):
+            for (m, n) in [(2, 3)] if q else [(2, 3), (3, 2), (3, 3)]:
+                out.append({'name': 'storage-%s-%s-%dx%d' % (meth, d, m, n), 'kind': 'storage', 'method': meth, 'dir': d, 'in': [m, n],
+                            'out': [3, 2], 'shift': 'zero'})
     for meth in ('mdft', 'czt'):
         for (m, n, M) in [(2, 2, 2), (2, 2, 3), (2, 3, 3), (3, 2, 3), (1, 2, 2)] + ([] if q else [(3, 3, 4), (2, 4, 4), (3, 3, 3)]):
             if q and meth == 'czt' and (m, n, M) not in ((2, 2, 2), (2, 3, 3)):
@@ -95,6 +101,12 @@ def run(cfg, H):
                         for ll in range(N):
                             ref[i, j, k, ll] = Kt[j, i, ll, k]
             H.eq('transposed input and per-axis arguments give the transposed output', K, ref)
+    elif kind == 'storage':
+        M, N = cfg['out']
+        route = prop.focus_fixed_sampling if cfg['dir'] == 'fwd' else prop.unfocus_fixed_sampling
+        Kc = H.linear_map(lambda f: route(f, dx, efl, wvl, odx, (M, N), shift=(0, 0), method=meth), (m, n), complex_=True)
+        Kr = H.linear_map(lambda f: route(f, dx, efl, wvl, odx, (M, N), shift=(0, 0), method=meth), (m, n), complex_=False, name='g')
+        H.eq('a real-typed input is transformed like the same field stored as complex', Kr, Kc)
     elif kind == 'allpass':
         M = cfg['M']
         fpm_dx = wvl * efl / (dx * M)
